@@ -28,6 +28,10 @@ CLASSES = {
     "SecureGopherPlusProtocol": ("gplus", True),
     "GopherProtocol": ("gopher", False),
     "SecureGopherProtocol": ("gopher", True),
+    # the two further classes the manual names for the protocols option ("Enhanced Gopher0", Gopher+ with +URL blocks):
+    # they claim what the class they extend claims
+    "EnhancedGopherProtocol": ("gopher", False),
+    "URLGopherPlus": ("gplus", False),
 }
 SHIPPED_ORDER = ["WAPProtocol", "GeminiProtocol", "HTTPProtocol", "HTTPSProtocol", "SpartanProtocol",
                  "GopherPlusProtocol", "SecureGopherPlusProtocol", "GopherProtocol", "SecureGopherProtocol"]
@@ -37,7 +41,9 @@ CONFIG_NAMES = {
     "SpartanProtocol": "spartan.SpartanProtocol", "GopherPlusProtocol": "gopherp.GopherPlusProtocol",
     "SecureGopherPlusProtocol": "gopherp.SecureGopherPlusProtocol",
     "GopherProtocol": "rfc1436.GopherProtocol", "SecureGopherProtocol": "rfc1436.SecureGopherProtocol",
+    "EnhancedGopherProtocol": "enhanced.EnhancedGopherProtocol", "URLGopherPlus": "gopherp.URLGopherPlus",
 }
+ALL_CLASSES = SHIPPED_ORDER + ["EnhancedGopherProtocol", "URLGopherPlus"]
 
 _WS = b" \t\n\r\x0b\x0c\x1c\x1d\x1e\x1f\x85\xa0"  # anything some whitespace notion might strip
 
